@@ -273,6 +273,13 @@ func outcomeHash(r *Result) uint64 {
 
 // confirm replays a failing schedule twice with tracing and requires identical observations.
 func confirm(sc *Scenario, fd *Found) {
+	if len(fd.Choices) > 2000000 {
+		// a runaway execution (millions of choice points: a livelock that ran into MaxSteps): reported without the double
+		// replay and with the head of its schedule only - the full artefact would take gigabytes
+		fd.Trace = []string{fmt.Sprintf("(schedule of %d choices: not replayed, only its first 100000 choices are kept)", len(fd.Choices))}
+		fd.Choices = fd.Choices[:100000]
+		return
+	}
 	var evs [2]string
 	for k := 0; k < 2; k++ {
 		x, res, fails := runOne(sc, fd.Choices, true, 1<<20, nil)
@@ -289,6 +296,9 @@ func confirm(sc *Scenario, fd *Found) {
 		evs[k] = b.String()
 		if k == 1 {
 			fd.Trace = x.tlog
+			if n := len(fd.Trace); n > 6000 {
+				fd.Trace = append(append(append([]string{}, fd.Trace[:1000]...), fmt.Sprintf("... (%d trace lines omitted)", n-6000)), fd.Trace[n-5000:]...)
+			}
 			for _, e := range res.Events {
 				fd.Events = append(fd.Events, e.String())
 			}
